@@ -520,6 +520,8 @@ func (p *PipelinedMemDB) Staging() int {
 
 // Cleanup implements MemBuffer interface.
 func (p *PipelinedMemDB) Cleanup(h int) {
+	// the batch get cache may hold values written in the stage that is being undone.
+	p.batchGetCache = nil
 	p.memDB.Cleanup(h)
 }
 
